@@ -259,6 +259,18 @@ Example c16_monitor_rejects_deadline_error_for_cancelled_caller :
   run_obs hstep hinit [[1;1];[1;0];[3;1;0];[4;1]] = [[4;0];[4;0;1;0];[4;0;2;0;6;0];[4;0;4;0;6;0]] /\
   run_check_once [] [[1;1];[1;0];[3;1;0];[4;1]] [[4;0];[4;0;1;0];[4;0;2;0;6;0];[4;0;4;0;6;0]] = [].
 Proof. vm_compute. repeat split; reflexivity. Qed.
+(* clause 11: caller 2 is parked at gate 1 behind a running callback, its context is cancelled there (the [4;2] step leaves
+   it at gate 1, which is accepted), then it is let run: it must return (the model: Canceled, status 4); an
+   implementation that loops back to gate 1 without testing ctx.Err() is reported (with the Mismatch of that step) *)
+Example c16_monitor_rejects_cancelled_caller_back_at_gate :
+  let evs := [[1;0];[3;0;0];[1;0];[4;2];[3;2;0]] in
+  let pre := [[1;0];[2;0;6;0];[2;0;6;0;1;0];[2;0;6;0;1;0]] in
+  let r := run_check_once [] evs (pre ++ [[2;0;6;0;1;0]]) in
+  flagged r 11 = true /\ In (PropFalse 16 11 4) r /\ r = [Mismatch 4 [2;0;6;0;4;0] [2;0;6;0;1;0]; PropFalse 16 11 4] /\
+  run_check_once [] [[1;0];[3;0;0];[1;0];[4;2]] pre = [] /\
+  run_obs hstep hinit evs = pre ++ [[2;0;6;0;4;0]] /\
+  run_check_once [] evs (pre ++ [[2;0;6;0;4;0]]) = [].
+Proof. vm_compute. repeat split; try reflexivity. right. left. reflexivity. Qed.
 Example c16_monitor_rejects_early_return :
   flagged (run_check_memo [] [[1];[1]] [[6;0];[6;0;3;0]]) 7 = true.
 Proof. vm_compute. reflexivity. Qed.
